@@ -12,6 +12,7 @@ import Sds.Proofs.Round
 import Sds.Proofs.BitsMore
 import Sds.Proofs.GenFns
 import Sds.Proofs.GenEqBits
+import Sds.Proofs.GenEqSelect
 
 namespace Sds.C17
 open Sds Outcome
@@ -236,8 +237,8 @@ every run by `tools/rs2lean.py` from the bodies of `low_set`, `low_set_unchecked
 `bit_len`, `reverse_low`, `filler_value`, `read_int` and `write_int` (`let`, `if`/`else`, compound assignment to array
 elements, table reads, shifts with the overflow rule of the build mode; the bounds hooks are dropped).  The equations say
 that the code as it is NOW — both branches of `read_int` / `write_int`, the order of its reads and writes, its table
-lookups — is the model function that `read_after_write`, `write_frame`, … above are about.  Only `select` (whose two
-paths are tied by shape flags and whole-table obligations) is not translated statement by statement. -/
+lookups — is the model function that `read_after_write`, `write_frame`, … above are about.  `select` follows below
+(`select_as_translated_from_source`). -/
 theorem bits_functions_as_translated_from_source (m : Mode) (a : Array Word) (off width n bits : Nat) (w v : Word) (b : Bool)
     (hoff : off < U64) :
     Generated.gen_low_set m n = lowSetT n ∧
@@ -256,5 +257,26 @@ theorem bits_functions_as_translated_from_source (m : Mode) (a : Array Word) (of
 /-- non-vacuity: the translated `write_int` / `read_int`, run on a straddling field, give the documented result -/
 example : (Generated.gen_write_int .checked #[0#64, 0#64] 60 0xFF#64 8 >>= fun a => Generated.gen_read_int .checked a 60 8)
     = ok 0xFF#64 := by decide
+
+/-- **`bits::select` as translated from the source on this run, both `cfg` alternatives** (`Generated/FnsSelect.lean`): the
+block compiled without BMI2 — the SWAR prefix sums with the overflow checks of the build mode, `overflowing_mul`, the two
+`get_unchecked` table reads, the `u32` shifts that round the bit offset down to a byte, the variable shifts — and the block
+compiled with it (`_pdep_u64` is the named function `pdep`, `trailing_zeros` is `ctz`).  For every word and every rank below
+its population count — the safety precondition of the `unsafe fn` — the code as it is NOW returns, in both arithmetic
+modes and on both paths, the position of the set bit of that rank; and whenever the hand model of the portable path
+succeeds the translated code returns the same value.  (Outside the precondition the two are not equal: for `n = 0` the
+release build returns 64 where the model reports an out-of-bounds read — `GenEq` examples, `decide +kernel`.) -/
+theorem select_as_translated_from_source (m : Mode) (n : Word) (rank : Nat) (h : rank < popcount n) :
+    (∃ p, Generated.gen_select_portable m n rank = ok p ∧ selectBits (bitsOfWord n) rank = some p) ∧
+    (∃ p, Generated.gen_select_bmi2 m n rank = ok p ∧ selectBits (bitsOfWord n) rank = some p) ∧
+    (∀ p, selectPortable m n rank = ok p → Generated.gen_select_portable m n rank = ok p) ∧
+    Generated.gen_select_bmi2 m n rank = ok (selectPdep n rank) :=
+  ⟨GenEq.select_portable_as_spec m n rank h, GenEq.select_bmi2_as_spec m n rank h,
+   fun p hp => GenEq.select_portable_of_model_ok m n rank p hp,
+   GenEq.select_bmi2_eq m n rank (by have := popcount_le n; omega)⟩
+
+/-- non-vacuity: a word with 5 set bits, rank 3, both translated paths -/
+example : Generated.gen_select_portable .checked 0xF1#64 3 = ok 6 ∧ Generated.gen_select_bmi2 .wrapping 0xF1#64 3 = ok 6 := by
+  decide +kernel
 
 end Sds.C17
